@@ -156,6 +156,16 @@ Proof.
   destruct f1, k1, f2, k2, f3, k3, f4, k4; try discriminate; auto.
 Qed.
 
+(** what the proofs need from a configuration (established from the skeleton checks) *)
+Record cfg_ok (c : cfg) : Prop := {
+  ok_body : c_body c = bodyA \/ c_body c = bodyB;
+  ok_inner : c_inner c = inner_prog;
+  ok_outer : c_outer c = outer_prog;
+  ok_sel : c_select c = true;
+  ok_w : (1 <= c_w c)%nat;
+  ok_ecap : (c_w c <= c_ecap c)%nat;
+  ok_ccap : (1 <= c_ccap c)%nat }.
+
 Lemma mprog_eqb_eq a b : mprog_eqb a b = true -> a = b.
 Proof.
   revert b; induction a as [|x a IH]; intros [|y b] H; simpl in H; try discriminate; auto.
